@@ -125,6 +125,21 @@ Theorem C14_abf_peer_death_before_repair_refuted :
 Proof. exact peer_death_old_refuted. Qed.
 Print Assumptions C14_abf_peer_death_before_repair_refuted.
 
+(* Walkers that all read the same data I through inputPrefix (w_init_input: recorded as exchanged already) and exchange:
+   everybody holds I, once, however many walkers there are ... *)
+Theorem C14_abf_input_once : forall (A : Type) (G : GrpOps A), GrpLaws G ->
+  forall (I : grid (A:=A)) t t' (n : nat) k w,
+  nth_error (exchange G t' (repeat (w_init_input G I t) n)) k = Some w -> forall j, wG w j = I j /\ wL w j = I j.
+Proof. exact @input_once. Qed.
+Print Assumptions C14_abf_input_once.
+
+(* ... which failed when sharing was enabled by a script (snapshot empty: w_init_input_old): two walkers, one input
+   sample: 2 after the exchange. *)
+Theorem C14_abf_input_before_repair_refuted :
+  exists w, nth_error (exchange Zgrp 1 (repeat (w_init_input_old Zgrp (one_at 0) 0) 2)) 0 = Some w /\ wG w 0 = 2.
+Proof. exact input_old_refuted. Qed.
+Print Assumptions C14_abf_input_before_repair_refuted.
+
 (* A restart through a state file of the repaired code (last_* saved) is the identity on the three grids, at any
    point of a run -- which is why C14_abf_union_once and C14_abf_interleavings_union_once quantify over traces with
    ERestart / ARestart ANYWHERE, not only at exchange boundaries. *)
